@@ -803,7 +803,7 @@ Qed.
 
 Theorem spec_model : forall i, spec i (model i) = true.
 Proof.
-  intros [kid use alg keys|allowed ks t parsed|k v ks t m now0 now1|allowed skip steps|k v ks steps|p hint t m now0 now1]; cbn [model spec].
+  intros [kid use alg keys|allowed ks t parsed|k v ks t m now0 now1|allowed skip steps|k v ks steps|p hint t m now0 now1|hint allowed ov calls]; cbn [model spec].
   - apply find_spec_model.
   - destruct (check_signature sym_verify allowed ks t parsed) as [alg|e] eqn:H.
     + apply check_signature_believable in H as [Hg Ha]. rewrite Hg. subst alg. now rewrite seqb_refl.
@@ -817,6 +817,44 @@ Proof.
     replace (configured_keyset p hint) with (provider_keyset p hint)
       by (unfold configured_keyset, provider_keyset; destruct hint; reflexivity).
     apply verify_step_model.
+  - induction calls as [|c r IH]; cbn [map tenants_spec]; [reflexivity|].
+    now rewrite verify_step_model, IH.
+Qed.
+
+Lemma hint_at_issuer : forall verify (hint : bool) v ks t m now c' alg,
+  outcome_claims (run_verifier verify (if hint then VIDTokenHint else VAccessToken) v ks t m now) = Some (c', alg) ->
+  c_iss c' = v_issuer v.
+Proof.
+  intros verify hint v ks t m now c' alg H. pose proof H as H0.
+  apply each_verifier in H0 as [bytes [c0 [sa [Hm [Hc _]]]]]. subst m.
+  assert (c' = c0) by (destruct hint; exact Hc). subst c0.
+  destruct hint; cbn [run_verifier] in H; unfold verify_id_token_hint, verify_access_token in H;
+    destruct (chk_issuer c' (v_issuer v)) eqn:E; cbn [andthen outcome_claims] in H; try discriminate;
+    unfold chk_issuer in E; destruct (c_iss c' =s v_issuer v) eqn:E2; try discriminate; now apply seqb_eq in E2.
+Qed.
+
+(* a multi-tenant provider (storage keys depend on the issuer of the call): an
+   answer with claims is justified by a key of the storage keys of THAT call's
+   issuer; the other calls of the list - earlier, later or overlapping - are no
+   input of it *)
+Theorem tenant_own_keys : forall verify (hint : bool) allowed c c' alg,
+  outcome_claims (run_verifier verify (if hint then VIDTokenHint else VAccessToken)
+                    (tenant_verifier allowed c) (KSOpenID (tc_keys c)) (tc_tok c) (tc_mid c) (tc_now0 c))
+  = Some (c', alg) ->
+  exists bytes e key keys,
+    tc_mid c = MidOk bytes c' /\ c_iss c' = tc_issuer c
+    /\ tc_keys c = Some keys /\ In key keys
+    /\ tok_sigs (tc_tok c) = [e] /\ verify key e bytes = true.
+Proof.
+  intros verify hint allowed c c' alg H.
+  pose proof (hint_at_issuer _ _ _ _ _ _ _ _ _ H) as Hi. cbn [tenant_verifier v_issuer] in Hi.
+  apply payload_binding in H as [bytes [c0 [e [key [H1 [H2 [H3 [H4 [H5 [H6 [H7 H8]]]]]]]]]]].
+  assert (c' = c0) by (destruct hint; exact H2). subst c0.
+  assert (Hk : exists keys, tc_keys c = Some keys /\ In key keys).
+  { destruct hint; cbn [verifier_keyset ks_keys] in H6; destruct (tc_keys c) as [keys|]; try contradiction;
+      exists keys; now split. }
+  destruct Hk as [keys [Hk1 Hk2]].
+  exists bytes, e, key, keys. repeat split; assumption.
 Qed.
 
 (* a provider's id_token_hint verifier believes a hint only under a key of the
